@@ -522,6 +522,19 @@ func formatValue(v interface{}) string {
 		return joinInterfaceSlice(v)
 	case []uint64:
 		return joinUint64Slice(v)
+	case []int64:
+		return joinInt64Slice(v)
+	case nil:
+		// The grammar spells the absent value "null".
+		return "null"
+	case float64:
+		// Never use exponent notation: the grammar only reads digits and a point.
+		// Keep a decimal point so that an integral float re-parses as a float.
+		s := strconv.FormatFloat(v, 'f', -1, 64)
+		if !strings.Contains(s, ".") {
+			s += ".0"
+		}
+		return s
 	case time.Time:
 		return fmt.Sprintf("\"%s\"", v.Format(timeFormat))
 	case *Condition:
@@ -549,6 +562,14 @@ func joinInterfaceSlice(a []interface{}) string {
 		default:
 			other[i] = fmt.Sprintf("%v", v)
 		}
+	}
+	return "[" + strings.Join(other, ",") + "]"
+}
+
+func joinInt64Slice(a []int64) string {
+	other := make([]string, len(a))
+	for i := range a {
+		other[i] = strconv.FormatInt(a[i], 10)
 	}
 	return "[" + strings.Join(other, ",") + "]"
 }
